@@ -94,7 +94,8 @@ PROPS = {
     },
     "C05": {
         "required_theorems": ["c05_result", "c05_exit_reasons", "c05_thread_terminates", "c05_add_order_irrelevant",
-                              "c05_exit_lossless_wait", "c05_block_invariant"],
+                              "c05_exit_lossless_wait", "c05_block_invariant", "c05_every_schedule_invariant",
+                              "c05_every_schedule_result", "c05_step_exists"],
         "runs": [
             # hypothesis of the runner theorems: every library block is a chunk-independent stream function with truthful
             # verdicts (checked on the real blocks: drip-fed vs greedy, verdict acceptor, eof()/constructor probes)
@@ -123,7 +124,7 @@ PROPS = {
     },
     "C06": {
         "required_theorems": ["c06_exit_quiescent", "c06_quiet_pass_calls", "c06_progress_continues",
-                              "c06_quiescent_is_fixpoint", "c06_terminates"],
+                              "c06_quiescent_is_fixpoint", "c06_terminates", "c06_every_schedule_result"],
         "runs": [
             # hypothesis of the runner theorems: every library block is a chunk-independent stream function with truthful
             # verdicts (checked on the real blocks: drip-fed vs greedy, verdict acceptor, eof()/constructor probes)
@@ -593,13 +594,18 @@ MANIFEST_TEXT = {
                 "generated read order); (3) mtLoop, the model of a block thread of MTGraph::run over ARBITRARY block scripts: "
                 "exits only by cancel/error/EOF/b.eof()/true wait, always terminates for finite answers, run() result "
                 "independent of add order; (4) for a DAG of deterministic history functions the quiescent state is unique and "
-                "equals the sequential reference evaluation (no hypothesis on interleaving, timeouts, stream size, add order). "
+                "equals the sequential reference evaluation (no hypothesis on interleaving, timeouts, stream size, add order); "
+                "(5) the operational layer that joins (1) and (4): a graph state (committed history per stream, consumed counts per "
+                "block) and steps in which ANY block consumes more and extends its outputs as a prefix of its history function - "
+                "for EVERY sequence of steps the invariant holds, and every run ending with everything consumed and emitted is the "
+                "reference execution (c05_every_schedule_invariant/_result, with an executable step c05_step_exists). "
                 "Tied to the code by scripted blocks on the real MTGraph and by generated library graphs whose sinks must equal "
                 "a sequential reference execution in every configuration.",
         "design_ref": "DESIGN.md section 2, C05",
-        "note": "PARTIAL: termination assumes OS fairness and graphs without bounded-buffer deadlock; the composition of the four "
-                "layers into one end-to-end Lean statement over a concrete concurrent semantics is argued in RR/Props/C05.lean, "
-                "not mechanised as a single theorem.",
+        "note": "PARTIAL: termination assumes OS fairness and graphs without bounded-buffer deadlock; the operational layer "
+                "(c05_every_schedule_result) takes block steps as atomic and the per-block history functions as given by the C08 "
+                "theorems and correspondences; that a real run ends with everything consumed and emitted is layers 2-3 plus "
+                "fairness.",
         "technique": "Lean 4 proofs (thread-loop model, DAG fixpoint uniqueness) + scripted-block and generated-graph correspondence",
     },
     "C06": {
